@@ -94,7 +94,13 @@ class Env:
         self.base = tempfile.mkdtemp(prefix=f"verif-imp-{os.getpid()}-", dir="/dev/shm" if os.path.isdir("/dev/shm") else None)
         ps = os.path.join(self.base, "pyscript")
         for rel, src in {"modules/pmod.py": "VAL = 'pmod'\n", "modules/ppkg/__init__.py": "VAL = 'ppkg'\n",
-                         "modules/ppkg/sib.py": "VAL = 'sib'\n", "apps/papp/__init__.py": "VAL = 'papp'\n"}.items():
+                         "modules/ppkg/sib.py": "VAL = 'sib'\n", "apps/papp/__init__.py": "VAL = 'papp'\n",
+                         # pyscript modules named like installed modules (one allow-listed, one not) take precedence
+                         "modules/random.py": "VAL = 'ps-random'\n", "modules/shutil.py": "VAL = 'ps-shutil'\n",
+                         # stub files that really exist are still ignored by 'from stubs... import'
+                         "modules/stubs/__init__.py": "marker = 'STUB-LOADED'\n",
+                         "modules/stubs/pyscript_builtins.py": "state = 'STUB-LOADED'\nlog = 'STUB-LOADED'\n",
+                         "modules/stubs/pyscript_generated.py": "anything = 'STUB-LOADED'\n"}.items():
             fp = os.path.join(ps, rel)
             os.makedirs(os.path.dirname(fp), exist_ok=True)
             open(fp, "w").write(src)
@@ -151,12 +157,39 @@ class Env:
         bound = {k: v for k, v in g.items() if k != "MARK"}
         return exc, bound, list(self.requested)
 
+    def run_two(self, src1, allow1, src2, allow2):
+        """Two statements in ONE evaluator with the option changed in between the way Home Assistant does it (the entry gets a
+        new data mapping)."""
+        from custom_components.pyscript.eval import AstEval
+        from custom_components.pyscript.function import Function
+        from custom_components.pyscript.global_ctx import GlobalContext
+        from mc.progdiff import drive
+
+        self.entry.data = {"allow_all_imports": allow1}
+        self.mgr.contexts.clear()
+        g = {"MARK": 1}
+        ctx = GlobalContext("file.t", global_sym_table=g, manager=self.mgr)
+        a = AstEval("file.t", ctx)
+        Function.install_ast_funcs(a)
+        out = []
+        for src, allow in ((src1, allow1), (src2, allow2)):
+            self.entry.data = {"allow_all_imports": allow}
+            self.requested.clear()
+            exc = None
+            try:
+                a.parse(src)
+                drive(a.eval())
+            except Exception as e:  # noqa
+                exc = type(e).__name__
+            out.append((exc, list(self.requested)))
+        return out
+
     def close(self):
         self.EV.importlib = self._orig_importlib
         shutil.rmtree(self.base, ignore_errors=True)
 
 
-PYSCRIPT_MODULES = {"pmod", "ppkg", "ppkg.sib"}  # importable pyscript modules from a file context (apps only from apps)
+PYSCRIPT_MODULES = {"pmod", "ppkg", "ppkg.sib", "random", "shutil"}  # importable pyscript modules from a file context (apps only from apps)
 
 
 def expected(name, form, allow):
@@ -233,6 +266,39 @@ def check_stubs(res, env):
                 res.fail("stubs-not-ignored", case, expected=(None, {}, []), observed=(exc, sorted(bound), requested))
 
 
+def check_shadow(res, env):
+    """A pyscript module named like an installed module is the one that gets imported, in every form and with either option."""
+    for name in ("random", "shutil", "pmod"):
+        for form, src, key in (("import", f"import {name}", name), ("import_as", f"import {name} as q", "q"),
+                               ("from", f"from {name} import VAL as q", "q"), ("exec", f"exec('import {name} as q')", "q"),
+                               ("func", f"def f_imp():\n    import {name}\n    return {name}\nq = f_imp()", "q")):
+            for allow in (False, True):
+                exc, bound, requested = env.run(src, allow)
+                got = bound.get(key)
+                val = got if isinstance(got, str) else getattr(got, "VAL", None)
+                case = {"name": name, "form": form, "allow": allow, "src": src, "shadow": True}
+                res.case(("shadow", name, form, allow, exc, val), nontrivial=True, config="shadow", sample=case)
+                if exc is not None or val != ("ps-" + name if name != "pmod" else "pmod") or requested:
+                    res.fail(f"pyscript-module-not-preferred|{form}|allow={allow}", case, expected="the pyscript module", observed=(exc, val, requested))
+
+
+def check_option_change(res, env):
+    """allow_all_imports is read when the import statement runs, also by an evaluator created before the option changed."""
+    for name in ("subprocess", "nosuch_pkg_zz.sub"):
+        for form, src in (("import", f"import {name}"), ("import_as", f"import {name} as q"), ("from", f"from {name} import x as q")):
+            for first, second in ((False, True), (True, False)):
+                out = env.run_two(src, first, src, second)
+                case = {"name": name, "form": form, "option": [first, second], "src": src, "option_change": True}
+                res.case(("optchange", form, first, second, tuple(o[0] for o in out)), nontrivial=True, config="option-change", sample=case)
+                for (exc, requested), allow in zip(out, (first, second)):
+                    ok = (exc is None or exc in ("ImportError", "AttributeError")) if allow else (exc == "ModuleNotFoundError" and not requested)
+                    if allow and name.split(".")[0] not in sys.modules and not requested:
+                        ok = False
+                    if not ok:
+                        res.fail(f"stale-option|{form}|{first}->{second}", case, expected=f"behaviour of allow_all_imports={allow}", observed=out)
+                        break
+
+
 def check_builtins(res, env):
     import logging
 
@@ -296,6 +362,8 @@ def run_shard(shard):
         if shard[0] == "builtins":
             check_builtins(res, env)
             check_stubs(res, env)
+            check_shadow(res, env)
+            check_option_change(res, env)
         else:
             _, tier, k, n = shard
             TIER[0] = tier
@@ -317,6 +385,12 @@ def replay(case):
         elif case.get("name") == "stubs":
             check_stubs(res, env)
             fails = res.failures
+        elif case.get("shadow"):
+            check_shadow(res, env)
+            fails = [f for f in res.failures if f["case"]["src"] == case["src"] and f["case"]["allow"] == case["allow"]]
+        elif case.get("option_change"):
+            check_option_change(res, env)
+            fails = [f for f in res.failures if f["case"]["src"] == case["src"] and f["case"]["option"] == case["option"]]
         else:
             check_name(res, env, case["name"])
             fails = [f for f in res.failures if f["case"]["src"] == case["src"] and f["case"]["allow"] == case["allow"]]
